@@ -2,6 +2,7 @@
 import math
 import os
 import random
+import re
 
 import numpy as np
 
@@ -88,10 +89,49 @@ def run(chk):
     for which in ("upper", "lower", "both"):
         for (n, lo, up) in ((8, 0.2, 1.0), (16, 1.0, -0.3)) + (() if chk.tier == "quick" else ((5, -2.0, -1.0), (33, 0.0, 4.0))):
             sweep_reqs.append(dict(which=which, n=n, lower=lo, upper=up, ratios=ratios, lower_factor=1.0 if which != "both" else 0.7))
-    rc, res, o, e = common.run_impl_json("impl/radial.py", dict(funcs=cases, eqs=eq_reqs, sweeps=sweep_reqs), timeout=900)
+    # make1dGrid: theories/Model_Grid1d.v (PrimFloat instance) against the real method on given face values: monotone either way, with a plateau,
+    # with one reversal, nearly equal neighbours (the centre rounds onto a face)
+    g1 = []
+    for k in range(60 if chk.tier == "quick" else 600):
+        nf = rng.choice([2, 3, 5, 9, 17])
+        step = [rng.uniform(0.01, 1.0) for _ in range(nf - 1)]
+        kind = k % 6
+        if kind == 1:
+            step[rng.randrange(nf - 1)] = 0.0
+        elif kind == 2:
+            step[rng.randrange(nf - 1)] *= -1.0
+        elif kind == 3:
+            step[rng.randrange(nf - 1)] = 1e-16
+        fv = [rng.uniform(-2, 2)]
+        for d_ in step:
+            fv.append(fv[-1] + d_)
+        if kind == 4 or rng.random() < 0.4:
+            fv = [-x for x in fv]
+        g1.append([float(x).hex() for x in fv])
+    rc, res, o, e = common.run_impl_json("impl/radial.py", dict(funcs=cases, eqs=eq_reqs, sweeps=sweep_reqs, grid1d=g1), timeout=900)
     if res is None:
         chk.tie_broken("impl/radial.py", f"implementation run failed rc={rc}: {(o + e)[-1500:]}")
         return
+    fl = lambda xs: "[" + "; ".join(common.fhex(float.fromhex(x)) for x in xs) + "]"
+    items, nref = [], 0
+    for fv, r in zip(g1, res.get("grid1d", [])):
+        if "grid" in r:
+            gv = [float.fromhex(x) for x in r["grid"]]
+            dd = [b - a for a, b in zip(gv[:-1], gv[1:])]
+            if gv[::2] != [float.fromhex(x) for x in fv] or not (all(x > 0 for x in dd) or all(x < 0 for x in dd)):
+                chk.fail("make1dGrid:accepted-bad-grid", "make1dGrid returned a grid whose even entries are not the face values or which is not strictly monotone", {"faces": fv, "grid": r["grid"]})
+            items.append(f"(match make_1d_grid Fops {fl(fv)} with Some g => leq g {fl(r['grid'])} | None => false end)")
+        else:
+            nref += 1
+            items.append(f"(match make_1d_grid Fops {fl(fv)} with Some _ => false | None => true end)")
+    text = ("From Coq Require Import ZArith List Bool PrimFloat.\nFrom HT Require Import Field Model_Grid1d.\nImport ListNotations.\nLocal Open Scope float_scope.\n"
+            "Fixpoint leq (a b : list float) : bool := match a, b with [], [] => true | x :: s, y :: t => PrimFloat.eqb x y && leq s t | _, _ => false end.\n"
+            "Definition rs : list bool := [\n" + ";\n".join(items) + "].\nEval vm_compute in (length (filter (fun b => b) rs), length rs).\n")
+    rcq, oq, eq_ = common.coq_eval("cases_C09_grid1d", text)
+    mm = re.search(r"\((\d+)(?:%nat)?,\s*(\d+)(?:%nat)?\)", oq.replace("\n", " "))
+    if rcq != 0 or not mm or mm.group(1) != mm.group(2) or len(items) != len(g1):
+        chk.tie_broken("model:make1dGrid", f"model (PrimFloat) and the real make1dGrid disagree: {(oq + eq_)[-400:]}")
+    chk.notes["make1dGrid_correspondence"] = {"cases": len(g1), "refused": nref, "agree": int(mm.group(1)) if mm else 0}
     nsw = 0
     worst_sw = {}
     for q, r in zip(sweep_reqs, res.get("sweeps", [])):
